@@ -144,6 +144,27 @@ def rule_tables(prog, fixture=False):
                                     _steps_by_two(fn, slot):
                                 ok, why = True, "check_sequence_fits succeeded for the first slot on every path; " \
                                     "stepping one drive (2 surfaces) at a time"
+                # (2c) the search variable itself is stepped during placement: what must hold is that the image
+                #      fits at the value it has when the placement loop is entered
+                if not ok:
+                    lp = None
+                    for a in fn.ancestors(n):
+                        if a.get("k") in ("CXXForRangeStmt", "ForStmt", "WhileStmt"):
+                            lp = a
+                            break
+                    if lp is not None:
+                        entry = None
+                        parts = lp.get("parts", {})
+                        for nm in ("range", "init", "cond"):
+                            if nm in parts:
+                                entry = lp["c"][parts[nm]]
+                                break
+                        for atom, truth in ((g.truths(entry) or []) if entry is not None else []):
+                            a = strip_all(atom)
+                            if truth and is_call(a) and notpl(a.get("q") or "").endswith("check_sequence_fits") and \
+                                    same_expr(call_args(a)[0], slot) and _steps_by_two(fn, slot, within=lp):
+                                ok, why = True, "check_sequence_fits succeeded for the slot the placement loop starts " \
+                                    "from; stepping one drive (2 surfaces) at a time"
                 # (3) the slot comes from a search helper that returns a slot only after
                 #     check_sequence_fits succeeded for it, and the loop steps by the verified stride
                 if not ok:
@@ -211,14 +232,15 @@ def _returns_only_checked_slots(prog, t):
     return found
 
 
-def _steps_by_two(fn, slot):
-    """Every assignment to the slot variable inside loops containing a connect_internal call is
-    slot = slot.next().next() or corresponding_side_of_next_device(slot)."""
+def _steps_by_two(fn, slot, within=None):
+    """Every assignment to the slot variable inside loops containing a connect_internal call (or, if
+    `within` is given, inside that loop only) is slot = slot.next().next() or
+    corresponding_side_of_next_device(slot)."""
     s = strip_all(slot)
     if s.get("k") != "DeclRefExpr":
         return False
     ok_any = False
-    for n in fn.walk():
+    for n in (walk(within) if within is not None else fn.walk()):
         if n.get("k") == "CXXOperatorCallExpr" and n.get("op") == "=" and len(n["c"]) == 3 and \
                 strip_all(n["c"][1]).get("d") == s.get("d"):
             rhs = strip_all(n["c"][2])
@@ -259,6 +281,9 @@ def rule_sequence_check(prog, fixture=False):
             if b.get("cond") is None or len(fn.cfg.succ[bid]) != 2:
                 continue
             cond = strip_all(fn.nodes.get(b["cond"]))
+            # the block that ends `a || b` / `a && b` evaluates b (a had its own block)
+            while cond is not None and cond.get("k") == "BinaryOperator" and cond.get("op") in ("||", "&&"):
+                cond = strip_all(cond["c"][1])
             # exactly one atom: occupied(<expr>)
             if not (cond.get("k") == "CXXOperatorCallExpr" and cond.get("op") == "()" and
                     strip_all(cond["c"][1]).get("d") in pocc):
